@@ -761,3 +761,85 @@ def check_C19(tier, seed):
     cov["send_sync_static_assertion_compiles"] = sendsync_ok
     vlib.write_evidence("C19", tier, seed, "model_checking", cov, COMMON_ASSUME[:2] + ["interleavings are enforced by a sequencer (one operation at a time, on the scripted thread); background threads run unscripted to disturb caches, never to produce verdicts"], time.time() - t0, nviol)
     return 1 if nviol else 0
+
+
+# ---------------------------------------------------------------- C18
+CONFIGS_ALL = [("dev", True), ("release", True), ("o0nochk", False), ("o3chk", True), ("dev", False), ("release", False), ("o0nochk", True), ("o3chk", False)]
+
+
+def check_C18(tier, seed):
+    import subprocess, concurrent.futures
+    t0 = time.time()
+    configs = CONFIGS_ALL[:3] if tier == "quick" else CONFIGS_ALL
+    corp = corpora.c18_corpora(seed, tier)
+    specs = {"alg": ("Trace_Alg", step_weight), "api": ("Trace_Stream", None), "jit": ("Trace_Jitter", jit_weight)}
+    wd = vlib.workdir("run-C18")
+    bins, cfginfo = {}, {}
+    for prof, serde in configs:
+        b = vlib.build_harness(prof, serde)
+        bins[(prof, serde)] = b
+        cfginfo["%s%s" % (prof, "+serde" if serde else "")] = json.loads(subprocess.run([b, "config"], stdout=subprocess.PIPE, text=True).stdout or "{}")
+    nviol, parts, compared = 0, [], 0
+    ref = configs[0]
+    traces = {}
+    for name, S in corp.items():
+        sp = os.path.join(wd, name + ".sched")
+        vlib.write_ndjson(sp, S.lines())
+        for cfg in configs:
+            tp = os.path.join(wd, "%s-%s-%s.trace" % (name, cfg[0], "serde" if cfg[1] else "noserde"))
+            vlib.drive(bins[cfg], sp, tp)
+            traces[(name, cfg)] = tp
+    # (1) the reference configuration is a behaviour of the specification
+    for name, S in corp.items():
+        spec, w = specs[name]
+        events = vlib.read_ndjson(traces[(name, ref)])
+        cases = vlib.split_events(events)
+        res = vlib.validate_cases("C18-" + name, spec + ".tla", spec + ".cfg", cases, weight=w or default_weight, timeout=3000)
+        parts.append((events, cases, res))
+        nviol += report_rejections("C18", res["rejected"], S)
+    # (2) every other configuration records the same behaviour
+    jobs = [(name, cfg) for name in corp for cfg in configs[1:]]
+
+    def same(job):
+        name, cfg = job
+        r = vlib.run_tlc(os.path.join(vlib.SPEC, "trace", "Trace_Same.tla"), os.path.join(vlib.SPEC, "trace", "Trace_Same.cfg"),
+                         os.path.join(wd, "meta-%s-%s-%s" % (name, cfg[0], cfg[1])),
+                         env={"TRACE": traces[(name, ref)], "TRACE2": traces[(name, cfg)]}, timeout=1500, xmx="4g")
+        return job, r
+    with concurrent.futures.ThreadPoolExecutor(max_workers=7) as ex:
+        for (name, cfg), r in ex.map(same, jobs):
+            pr = vlib.parse_trace_result(r, 0)
+            compared += r["states"]
+            if pr["status"] == "accepted":
+                continue
+            if pr["status"] == "error":
+                raise ToolError("Trace_Same failed on %s %s:\n%s" % (name, cfg, r["out"][-2000:]))
+            events = vlib.read_ndjson(traces[(name, ref)])
+            other = vlib.read_ndjson(traces[(name, cfg)])
+            at = pr["at"]
+            # the schedule of the case containing event `at`
+            k = at - 1
+            while k > 0 and events[k].get("e") != "reset":
+                k -= 1
+            label = events[k].get("label", "?") if k < len(events) else "?"
+            case = next((c for c in corp[name].cases if c["label"] == label), None)
+            cfgname = "%s%s" % (cfg[0], "+serde" if cfg[1] else "")
+            path = vlib.write_replay("C18", {"property": "C18", "case": label, "signature": "config|%s|%s" % (cfgname, label),
+                                             "configurations": ["dev+serde (reference)", cfgname],
+                                             "schedule": ([{"op": "reset"}] + case["ops"]) if case else None,
+                                             "event_index_in_trace": at,
+                                             "reference_event": events[at - 1] if at <= len(events) else None,
+                                             "other_event": other[at - 1] if at <= len(other) else None,
+                                             "how": "build the harness with `cargo build --profile %s%s` and drive the schedule in both" % (cfg[0], "" if cfg[1] else " --no-default-features")})
+            print("VIOLATION property=C18 replay=%s" % path)
+            print("  configuration %s differs from the reference at event %d of corpus %s (case %r): %s" % (cfgname, at, name, label, "; ".join(m[:400] for m in pr["mismatch"][:1])))
+            nviol += 1
+    cov = base_cov(parts, "a fixed corpus (algorithm traces of all generators incl. seeding, mixed next_u32/next_u64/fill_bytes histories of all 19 seedable types, JitterRng over scripted timers incl. deltas around 2^31/2^32 and test_timer) is executed by the harness built in every configuration; the trace of the reference configuration (dev: opt 0, overflow checks, debug assertions, serde) is validated by the trace specifications, and Trace_Same requires every other configuration's trace to be the same behaviour event by event (values, Ok/Err, panics, readings consumed). distinct = distinct recorded events", ["Trace_Alg", "Trace_Stream", "Trace_Jitter", "Trace_Same"])
+    cov["configurations"] = cfginfo
+    cov["events_compared_across_configurations"] = compared
+    cov["programs"] = len(configs)
+    vlib.write_evidence("C18", tier, seed, "model_checking", cov, COMMON_ASSUME[:2] + ["configurations = cargo profiles of the harness (opt-level 0/3 x overflow-checks+debug-assertions on/off) x serde feature on/off; the crates under test are compiled with the same profile as path dependencies",
+                                                                                       "quick runs 3 of the 8 configurations, thorough all 8"], time.time() - t0, nviol)
+    import shutil
+    shutil.rmtree(wd, ignore_errors=True)
+    return 1 if nviol else 0
